@@ -34,6 +34,9 @@ def configs(tier):
             out.append({"f": "laplace", "args": [m, s]})
     out += [{"f": "normal", "args": []}, {"f": "uniform", "args": []}, {"f": "laplace", "args": []}, {"f": "zero", "args": []},
             {"f": "normal", "args": [3]}, {"f": "uniform", "args": [-1]}, {"f": "laplace", "args": [2]}]
+    # the same values carried by numpy scalars (parameters computed with numpy)
+    for t, (m, v) in (("int64", (-3, 4)), ("float32", (1.5, 0.25)), ("float64", (-1.5, 9.0)), ("int32", (2, 1))):
+        out += [{"f": "normal", "args": [m, v], "np": t}, {"f": "uniform", "args": [min(m, v) - 1, max(m, v)], "np": t}, {"f": "laplace", "args": [m, v], "np": t}]
     return out
 
 
@@ -55,11 +58,15 @@ def spec(cfg):
 
 
 def make(cfg):
-    return getattr(noise, cfg["f"])(*cfg["args"])
+    args = cfg["args"]
+    if cfg.get("np"):
+        args = [getattr(np, cfg["np"])(a) for a in args]
+    return getattr(noise, cfg["f"])(*args)
 
 
 def desc(cfg, n):
-    return "noise.%s(%s)(%d)" % (cfg["f"], ", ".join(map(str, cfg["args"])), n)
+    wrap = ("np.%s(%%s)" % cfg["np"]) if cfg.get("np") else "%s"
+    return "noise.%s(%s)(%d)" % (cfg["f"], ", ".join(wrap % a for a in cfg["args"]), n)
 
 
 def shape_fail(cfg, n, out):
@@ -126,6 +133,7 @@ def check_branch(cfg, n, acc):
     pol = lambda k, lo, hi: menu
     fails = []
     runs = {}
+    unrecognised = [0]
     d = desc(cfg, n)
 
     def run(prefix):
@@ -151,10 +159,17 @@ def check_branch(cfg, n, acc):
             fails.append(("cells-reused", "%s: two calls re-used the same RNG cells (%d draws, %d fresh)" % (d, len(tp.trace), len(tp.points))))
         runs[tuple(prefix)] = (np.asarray(out, dtype=float), np.asarray(out2, dtype=float), tp.trace)
         lo, hi = spec(cfg)
+        # the transform rule presupposes draws through uniform / laplace cells; a sampler built on other base laws (exponentials, ...)
+        # is judged on shape, support, independence (below) and by the seeded stage only
+        recognised = all("frac" in c for c in tp.trace)
+        if not recognised:
+            unrecognised[0] += 1
         for o in (out, out2):
             for x in np.asarray(o, dtype=float):
                 if kind == "uniform" and not (min(lo, hi) <= x <= max(lo, hi)):
                     fails.append(("uniform-outside", "%s returned %r outside [%s, %s]" % (d, x, lo, hi)))
+                if not recognised:
+                    continue
                 cand = []
                 for c in tp.trace:
                     if "frac" in c:
@@ -167,6 +182,9 @@ def check_branch(cfg, n, acc):
         return tp.points
 
     tape.explore(run, bound=1)
+    if unrecognised[0]:
+        acc.undecided += 1
+        acc.extra["configs_structure_not_recognised"] += 1
     base = runs.get(())
     if base is not None and not fails and n > 0:
         infl = {}
@@ -340,7 +358,7 @@ def describe(tier, seed):
         "technique": "harness-owned numpy.random: exhaustive basis responses of the output to every standard-normal cell (exact law of an affine function of "
                      "i.i.d. normals) and exhaustive single-cell deviations over a quantile menu for uniform/Laplace draws, on the real factories",
         "rule": "normal(m, v) for a grid of means x variances (v != 1 included), uniform(lo, hi) for ranges of either sign, laplace(m, s), zero(), defaults and "
-                "single-argument forms, n in {0,1,2,5}; normal: output = m + sqrt(v) * (own standard-normal cell) for every element (response covariance = v*I); "
+                "single-argument forms, parameters also as numpy scalars (int64, int32, float32, float64), n in {0,1,2,5}; normal: output = m + sqrt(v) * (own standard-normal cell) for every element (response covariance = v*I); "
                 "uniform/laplace: every element is lo+(hi-lo)*u resp. the Laplace(m, s) quantile of its own fresh uniform cell (or the mirror image) for u over a 5-point "
                 "menu, two consecutive calls use disjoint cells; all cells come from numpy's global stream; zero() consumes nothing; functions.null(...) == 0; real numpy: "
                 "seed(s); f(5) reproducible for s in {0, 1, 2^32-1} and consecutive draws differ; the same for large requests n in {1000, 100000, 2^17+3} (shape, support, reproducible, "
